@@ -42,3 +42,4 @@ Print Assumptions c11_first_shutdown_wins.
 Print Assumptions c11_submit_after_shutdown_raises.
 Print Assumptions c11_no_submit_after_shutdown.
 Print Assumptions c11_racing_submit_atomic.
+Print Assumptions c11_chain_shutdown_once_each.
